@@ -66,8 +66,15 @@ def compiled_corpus():
     import pymbolic
     import pymbolic.primitives as p
     x, y = p.Variable("x"), p.Variable("y")
-    return [(pymbolic.compile(p.Sum((p.Product((x, 3)), 1)), ["x"]), (4,)), (pymbolic.compile(p.Power(x, 2)), (5,)),
-            (pymbolic.compile(p.Quotient(p.Sum((x, 1)), y), ["y", "x"]), (2, 7))]
+    out = [(pymbolic.compile(p.Sum((p.Product((x, 3)), 1)), ["x"]), (4,)), (pymbolic.compile(p.Power(x, 2)), (5,)),
+           (pymbolic.compile(p.Quotient(p.Sum((x, 1)), y), ["y", "x"]), (2, 7))]
+    # free variables that are not listed (their order is decided when the expression is compiled - again after unpickling): many names, names differing
+    # only in case, names hashing alike under no seed in particular; weights make every order of the arguments a different value
+    for names in (["x", "X"], ["dt", "Dt", "DT", "a", "A"], ["n1", "n10", "n2", "N1", "n_1", "_n"], ["q" + str(i) for i in range(12)], ["b", "a", "B", "A", "ab", "aB", "Ab"]):
+        e = p.Sum(tuple(p.Product((3 ** i, p.Variable(n))) for i, n in enumerate(names)))
+        out.append((pymbolic.compile(e), tuple(range(1, len(names) + 1))))
+        out.append((pymbolic.compile(e, [names[-1]]), tuple(range(2, len(names) + 2))))
+    return out
 
 
 def main():
